@@ -80,7 +80,7 @@ class C41(Prop):
     props_file = "Props/C41.v"
     preamble = ("From Coq Require Import List ZArith QArith.\nImport ListNotations.\n"
                 "From PP Require Import Model.C41.\n")
-    n_cases = (160, 3000)
+    n_cases = (160, 2000)
     design_ref = "DESIGN.md §5 C41, §6/§6.1 C41"
     level_text = (
         "Coq theorems (exact rationals, any dimension, any resolution >= 2 per axis, any "
@@ -376,6 +376,8 @@ class C41(Prop):
 
     # ---------------------------------------------------------------- tie
     def coq_case(self, case, res):
+        if self._has_assert(res) and self._illcond(case):
+            return None     # open known finding (float rounding vs the 1e-13 assertion band)
         d = case["d"]
         q = lambda v: cq(_fr(v))
         pts = case["pts"]
@@ -413,7 +415,26 @@ class C41(Prop):
     def nontrivial(self, case, res):
         return case["kind"] == "inbox" and any(self._on_upper(case, p) for p in case["pts"])
 
+    KEY_ASSERT = ("InterpolationTable: weight sanity assertion (absolute 1e-13) fails on boxes far "
+                  "from the origin relative to a non-dyadic mesh size")
+
+    def _illcond(self, case):
+        """box offset / mesh size >= 64 on some axis and a mesh size that is not a dyadic number"""
+        for lo, hi, n in zip(case["low"], case["high"], case["npt"]):
+            h = (_fr(hi) - _fr(lo)) / (n - 1)
+            dyadic = (h.denominator & (h.denominator - 1)) == 0
+            if not dyadic and max(abs(_fr(lo)), abs(_fr(hi))) / h >= 64:
+                return True
+        return False
+
+    def _has_assert(self, res):
+        return any(o[0] == "err" and o[1] == "AssertErr"
+                   for c in res["comps"] for o in [c["interp"], c["single"]] + c["grads"]) \
+            or res.get("aerr") == "AssertionError"
+
     def finding_key(self, case, res, why):
+        if ("AssertErr" in why or "AssertionError" in why) and self._illcond(case):
+            return self.KEY_ASSERT
         if case.get("tiny") and "adaptive" in why:
             return "AdaptiveInterpolationTable: mesh size near the absolute 1e-10 coordinate tolerance"
         up = any(self._on_upper(case, p) for p in case["pts"])
